@@ -165,11 +165,11 @@ example : exChan.hist = [.finOk 2 7, .deliver 2 7 2, .rdySet 2 2, .timeout 7 1, 
 example : exChan.msgs = [] ∧ exChan.messageCount = 1 ∧ exChan.timeoutCount = 1 := by decide
 example : (step exConf (run exConf {} (exOps.take 9)) (.fin 1 7)).2 = .err "E_FIN_FAILED" false := by decide
 /-- the invariant is not `True`: it rejects a state with one id in two places -/
-example : ¬ Inv 0 { msgs := [⟨1, 0, .queued⟩, ⟨1, 0, .deferred 5⟩] } := by
+example : ¬ Inv 0 { msgs := [{ id := 1, att := 0, loc := .queued }, { id := 1, att := 0, loc := .deferred 5 }] } := by
   intro h; have := h.core.nodup; simp at this
 example : ¬ Holds (run exConf {} (exOps.take 9)) 1 7 := by
   intro ⟨e, he, _, p, d, hl⟩
-  have : (run exConf {} (exOps.take 9)).msgs = [⟨7, 2, .inflight 2 (1100 + 60) 1100⟩] := by decide
+  have : (run exConf {} (exOps.take 9)).msgs = [{ id := 7, att := 2, loc := .inflight 2 (1100 + 60) 1100 }] := by decide
   rw [this] at he
   simp at he
   subst he
